@@ -58,6 +58,7 @@ type Engine struct {
 	needAppendAxiom bool
 	scratch     *Unit
 	axiomsDone  bool
+	guards      map[string]string // mangled type name + "." + field -> mutex field
 }
 
 func NewEngine(repo string) *Engine {
@@ -151,6 +152,12 @@ func (e *Engine) LoadContracts(libDir string) error {
 			e.ghostDecls["ev_"+ev] = &ghostDecl{name: "ev_" + ev, typ: intT}
 		}
 		e.axioms = append(e.axioms, cf.Axioms...)
+		for _, g := range cf.Guards {
+			if e.guards == nil {
+				e.guards = map[string]string{}
+			}
+			e.guards[mangle(cf.PkgPath+"."+g[0])+"."+g[1]] = g[2]
+		}
 	}
 	return nil
 }
